@@ -87,6 +87,11 @@ def run(ctx):
         ctx.require(okr, "T4-image-range", ch.name, "e in d..=min(size+1, max_size)", "candidate images are d..=min(size + 1, max_size)",
                     "candidate images are not the inclusive range d..=min(size + 1, max_size): %s" % (r and (show(r[0], 1)[:30], show(r[1], 1)[:60], r[2]),), ch.span_of(bi))
 
+    for h, e, it in loops_in(ch):
+        extra = sorted(loop_carried_mutables(ch, h, e) - {"iter", "result", "new2old", "old2new"})
+        ctx.ob("T3-per-child-state", ch.name, "loop-carried state", "ok" if not extra else "violation",
+               "only the result vector and the two scratch renumbering buffers are carried between candidates" if not extra else
+               "state %s is carried from one candidate image to the next" % extra)
     ctx.clauses.append("only complete D-sets are emitted (T3)")
     es = [(bi, si, s) for bi, si, s in ex.assigns() if s["place"]["l"] == 0 and s["rv"]["k"] == "aggregate" and s["rv"].get("variant") == "Some"]
     ctx.floor("Some(..) in DSet extract", len(es), 1)
